@@ -62,6 +62,20 @@ where
         self.input.read_exact(buffer).map_err(to_ase)
     }
 
+    /// Read exactly `count` bytes into a new buffer. The buffer grows in
+    /// bounded steps as data arrives, so a declared size alone cannot reserve
+    /// memory.
+    pub(crate) fn read_vec(&mut self, count: usize) -> Result<Vec<u8>> {
+        let mut data = Vec::new();
+        while data.len() < count {
+            let start = data.len();
+            let step = (count - start).min(MAX_PREALLOCATION);
+            data.resize(start + step, 0);
+            self.read_exact(&mut data[start..])?;
+        }
+        Ok(data)
+    }
+
     pub(crate) fn skip_reserved(&mut self, count: usize) -> Result<()> {
         let mut ignored = vec![0_u8; count];
         self.input.read_exact(&mut ignored).map_err(to_ase)
